@@ -64,6 +64,10 @@ func genSession(t *rapid.T, o sessOpts) sessCase {
 	sc.Cfg.RetryDelayMs = 10000
 	sc.Cfg.Predef = gwgen.Predef(t, []string{"cl", "c2"}, predefNames)
 	sc.Auto = gwsim.Auto{Connack: gwgen.U8(0), BrokerAcks: true, ClientRegack: true, ClientAcks: true, BrokerPubrel: true}
+	if o.brokerPublishes {
+		// half of the clients keep their name -> ID table a function, as bisquitt's own client does
+		sc.Auto.StrictRegister = rapid.Bool().Draw(t, "strict_register")
+	}
 	if !o.scriptedSuback {
 		sc.Auto.Suback = rapid.SampledFrom([]string{"grant", "grant", "grant", "0", "fail"}).Draw(t, "suback")
 	}
@@ -137,6 +141,10 @@ func genSession(t *rapid.T, o sessOpts) sessCase {
 			name := rapid.SampledFrom(plainNames).Draw(t, "name")
 			bp := gwgen.MQ(gwgen.BPublish(name, byte(rapid.IntRange(0, 2).Draw(t, "qos")), mid, genPayload(t), rapid.Bool().Draw(t, "retain"), false))
 			rg := gwgen.SN(gwgen.Register(name, rapid.SampledFrom(msgIDPool).Draw(t, "regmid")))
+			if rapid.Bool().Draw(t, "race_by_subscribe") {
+				// ... or its SUBSCRIBE by name, which hands out a topic ID as well
+				rg = gwgen.SN(gwgen.SubscribeName(name, byte(rapid.IntRange(0, 2).Draw(t, "qos")), rapid.SampledFrom(msgIDPool).Draw(t, "submid")))
+			}
 			if rapid.Bool().Draw(t, "register_first") {
 				rg.NoWait = true
 				sc.Steps = append(sc.Steps, rg, bp)
@@ -271,6 +279,22 @@ type know struct {
 	gwReg      map[uint16]snref.Pkt // gateway REGISTER msgID -> packet, awaiting the client's REGACK
 	unanswered int                  // plain-name SUBSCRIBEs without SUBACK so far
 	handed     []handedID           // every ID the gateway handed out (for C04)
+	// strict: the client's name -> ID table is a function (bisquitt's own client): learning a new ID
+	// for a name makes it forget the old one
+	strict bool
+	nameID map[string]uint16
+}
+
+// learn records that the client accepted id for name.
+func (k *know) learn(id uint16, name string) {
+	if k.strict {
+		if old, ok := k.nameID[name]; ok && old != id {
+			delete(k.reg, old)
+		}
+		k.nameID[name] = id
+	}
+	k.reg[id] = name
+	delete(k.grey, id)
 }
 
 type handedID struct {
@@ -281,7 +305,7 @@ type handedID struct {
 }
 
 func newKnow(c sessCase) *know {
-	return &know{clientID: c.ClientID, predef: c.Script.Cfg.Predef, reg: map[uint16]string{}, grey: map[uint16]bool{},
+	return &know{clientID: c.ClientID, predef: c.Script.Cfg.Predef, reg: map[uint16]string{}, grey: map[uint16]bool{}, strict: c.Script.Auto.StrictRegister, nameID: map[string]uint16{},
 		pendingReg: map[uint16]string{}, pendingSub: map[uint16]snref.Pkt{}, gwReg: map[uint16]snref.Pkt{}}
 }
 
@@ -306,8 +330,7 @@ func (k *know) feed(i int, e gwsim.Event) {
 			if g, ok := k.gwReg[p.MsgID]; ok && p.TopicID == g.TopicID {
 				delete(k.gwReg, p.MsgID)
 				if p.RC == 0 {
-					k.reg[g.TopicID] = g.TopicName
-					delete(k.grey, g.TopicID)
+					k.learn(g.TopicID, g.TopicName)
 				} else if _, def := k.reg[g.TopicID]; !def {
 					// the client refused the registration: the ID is not registered in this session
 					// (unless another registration of the same ID is still open)
@@ -327,8 +350,7 @@ func (k *know) feed(i int, e gwsim.Event) {
 			if name, ok := k.pendingReg[p.MsgID]; ok {
 				delete(k.pendingReg, p.MsgID)
 				if p.RC == 0 {
-					k.reg[p.TopicID] = name
-					delete(k.grey, p.TopicID)
+					k.learn(p.TopicID, name)
 					k.handed = append(k.handed, handedID{p.TopicID, name, "REGACK", i})
 				}
 			}
@@ -338,8 +360,7 @@ func (k *know) feed(i int, e gwsim.Event) {
 				if s.TIT == snref.TITNormal && !hasWild(s.TopicName) {
 					k.unanswered--
 					if p.RC == 0 && p.TopicID != 0 {
-						k.reg[p.TopicID] = s.TopicName
-						delete(k.grey, p.TopicID)
+						k.learn(p.TopicID, s.TopicName)
 						k.handed = append(k.handed, handedID{p.TopicID, s.TopicName, "SUBACK", i})
 					} else if p.TopicID != 0 {
 						k.grey[p.TopicID] = true
@@ -489,8 +510,9 @@ func TestC01(t *testing.T) {
 func TestC02(t *testing.T) {
 	vf.Check(t, vf.Prop[sessCase]{
 		ID: "C02", Name: "broker-publish-resolvable", Bubble: true,
-		Rule: "connected session with a cooperative scripted client (accepts REGISTERs, completes QoS 1/2), predefined maps with shadowing between the client's entry and '*', and broker PUBLISH steps on short names, predefined names (own, '*'-only, shadowed), registered names, names introduced by SUBACK and brand-new names (sometimes two at the same instant, sometimes at the same instant as the client's own REGISTER of that name, in either order), QoS 0-2, retain, payload <= 7168. Non-trivial = the topic needed a REGISTER, or is predefined with an ID defined for both the client and '*'; distinct by script.",
-		Assumptions: []string{"only deliveries to an active client are judged (sleep is C11)", "the client resolves IDs only from its own knowledge: short decoding, the shared predefined configuration, REGISTERs it accepted, REGACKs/SUBACKs it received"},
+		Rule: "connected session with a cooperative scripted client (accepts REGISTERs, completes QoS 1/2), predefined maps with shadowing between the client's entry and '*', and broker PUBLISH steps on short names, predefined names (own, '*'-only, shadowed), registered names, names introduced by SUBACK and brand-new names (sometimes two at the same instant, sometimes at the same instant as the client's own REGISTER or SUBSCRIBE of that name, in either order), QoS 0-2, retain, payload <= 7168. Non-trivial = the topic needed a REGISTER, or is predefined with an ID defined for both the client and '*'; distinct by script.",
+		Assumptions: []string{"only deliveries to an active client are judged (sleep is C11)", "the client resolves IDs only from its own knowledge: short decoding, the shared predefined configuration, REGISTERs it accepted, REGACKs/SUBACKs it received",
+			"half of the scripted clients accept every REGISTER; the other half behave like bisquitt's own client (client/net.go): a REGISTER for a name already held under another topic ID is refused with 'invalid topic ID'"},
 		Gen: func(t *rapid.T) sessCase {
 			return genSession(t, sessOpts{brokerPublishes: true, maxSteps: 10})
 		},
@@ -521,6 +543,11 @@ func TestC02(t *testing.T) {
 				}
 				if e.Dir == gwsim.GC && e.SN != nil && e.SN.Type == snref.REGISTER {
 					regs[e.SN.TopicName] = *e.SN
+				}
+				if e.Dir == gwsim.CG && e.Auto && e.SN != nil && e.SN.Type == snref.REGACK && e.SN.RC == 2 {
+					// the strict client (name -> ID is a function, like bisquitt's own client) turned a REGISTER down
+					r.Fail("register-for-name-the-client-holds", "the gateway sent a REGISTER (topic ID %d) for a name the client already holds another topic ID for; a client whose name table is a function (bisquitt's own) must refuse it, and the PUBLISH cannot resolve\n%s", e.SN.TopicID, tr.Dump(30))
+					return
 				}
 				if e.Dir == gwsim.GC && e.SN != nil && e.SN.Type == snref.PUBLISH && !e.SN.DUP {
 					name, st := k.resolve(e.SN.TIT, e.SN.TopicID, true)
